@@ -1105,6 +1105,47 @@ pub fn create_memcpyprop_reverse_pass() -> Pass {
     }
 }
 
+/// Do the two pointers certainly refer to the same location? (The same value, or
+/// `get_elem_ptr`s with the same constant indices from bases that are the same location.)
+fn same_location(context: &Context, ptr1: Value, ptr2: Value) -> bool {
+    if ptr1 == ptr2 {
+        return true;
+    }
+    match (
+        ptr1.get_instruction(context).map(|i| &i.op),
+        ptr2.get_instruction(context).map(|i| &i.op),
+    ) {
+        (Some(InstOp::GetLocal(local1)), Some(InstOp::GetLocal(local2))) => local1 == local2,
+        (
+            Some(InstOp::GetElemPtr {
+                base: base1,
+                indices: indices1,
+                ..
+            }),
+            Some(InstOp::GetElemPtr {
+                base: base2,
+                indices: indices2,
+                ..
+            }),
+        ) => {
+            indices1.len() == indices2.len()
+                && indices1.iter().zip(indices2.iter()).all(|(idx1, idx2)| {
+                    idx1 == idx2
+                        || match (idx1.get_constant(context), idx2.get_constant(context)) {
+                            (Some(c1), Some(c2)) => {
+                                c1.get_content(context).as_uint()
+                                    == c2.get_content(context).as_uint()
+                                    && c1.get_content(context).as_uint().is_some()
+                            }
+                            _ => false,
+                        }
+                })
+                && same_location(context, *base1, *base2)
+        }
+        _ => false,
+    }
+}
+
 /// Copy propagation of `memcpy`s, replacing source with destination.
 fn copy_prop_reverse(
     context: &mut Context,
@@ -1350,14 +1391,16 @@ fn copy_prop_reverse(
             _ => continue,
         };
 
-        // Only a copy of the whole symbol onto itself is a no-op. A copy between two parts
-        // of the same symbol (e.g., `a[0] = a[1]`) must stay.
+        // Only a copy of a location onto itself is a no-op: the whole symbol, or the same
+        // part of it (e.g., `s.f = s.f`). A copy between two different parts of the same
+        // symbol (e.g., `a[0] = a[1]`) must stay.
         let copies_whole_symbol = dst_sym
             .get_type(context)
             .get_pointee_type(context)
             .is_some_and(|ty| ty.size(context).in_bytes() == byte_len);
 
-        if dst_sym == src_sym && copies_whole_symbol {
+        if dst_sym == src_sym && (copies_whole_symbol || same_location(context, dst_ptr, src_ptr))
+        {
             to_delete.insert(inst);
         }
     }
